@@ -12,7 +12,7 @@ out.update({"NpC08.lean": py2lean_np.translate_learn(R), "NpC06.lean": py2lean_n
             "ArrowScalarC17.lean": py2lean_arrow.translate_scalar(R), "CandC03.lean": py2lean_cand.translate(R),
             "Chunking.lean": py2lean.translate(R + "/parallel/chunking.py", "WorkChunks", "create", "chunkCreate", "LK.Gen.Chunking")})
 bad = [f for f, t in out.items() if open(os.path.join(G, f)).read() != t]
-extra = sorted(set(os.listdir(G)) - set(out) - {"WiringC03.lean", "SaveTraceC15.lean"})          # (these two are produced by running lenskit; ./check C03 / C15 rewrites them)
+extra = sorted(set(os.listdir(G)) - set(out) - {"WiringC03.lean", "SaveTraceC15.lean", "BatchTraceC12.lean"})          # (these are produced by running lenskit; ./check C03 / C15 / C12 rewrites them)
 for f in bad:
     print("differs from the translation of /repo:", f)
     if "--fix" in sys.argv: open(os.path.join(G, f), "w").write(out[f])
